@@ -11,16 +11,19 @@
    derivations proper is one in which Convert/ConvertS never receive a gerror value
    ([no_shortcut]; such a call returns its argument unchanged and derives nothing).
 
-   PARTIAL: "concurrent derivation is free of data races" is a statement about the Go memory
-   model and cannot be exhibited by the functional model; it is covered by running the same
-   chains from 16 goroutines on shared package-level factories under the race detector
-   (thorough tier).  What the model does show is the reason: derivation only allocates
-   (C15_only_allocates) — no existing object is ever written.                                 *)
+   Concurrency ("concurrent derivation is free of data races"): proved for the instrumented
+   semantics of GErrRace.v / GErrSlice.v — CloneBase re-stated statement by statement over
+   logged reads and writes of single fields (erasure theorem: it computes clone_base), and
+   laterSrcErrors refined to slice headers, shared backing arrays and Go's append.  PARTIAL:
+   that the compiled code performs these accesses and no others is a statement about the Go
+   compiler and memory model; it is exercised by running the same chains from 16 goroutines on
+   shared package-level factories under the race detector.                                   *)
 From Coq Require Import NArith List Bool.
 From Coq Require String.
 Import Coq.Strings.String.StringSyntax.
 From GT Require Import Base.GErrStr.
 From GT Require Import GErrModel GErrSpec GErrProofs GErrRace GErrRaceProofs GErrMetric GErrMetricProofs.
+From GT Require Import GErrSlice GErrSliceProofs.
 Import ListNotations.
 
 (* the full property, as far as a functional model can state it: every law below at once *)
@@ -142,19 +145,163 @@ Theorem C15_call_defined : forall xw st v m a g,
   exists st' r, call xw st v m a = Some (st', r).
 Proof. exact call_total. Qed.
 
-(* ---- concurrency, as far as a model reaches: in the access-trace model of GErrRace.v a
-        derivation never writes an object that existed before it started, so two goroutines
-        deriving from shared factories have no conflicting pair of accesses.  (PARTIAL: that the
-        trace model matches the compiled code's memory accesses is exercised by the race-detector
-        run, not proved.) ---- *)
-Theorem C15_no_shared_writes : forall xw jobs st n,
-  n <= length st -> existsb (is_shared_write n) (thread_accesses xw st jobs) = false.
+(* ---- concurrency.  The accesses of a derivation are those of [clone_base_tr], an instrumented
+        copy of CloneBase (GErrRace.v) that can touch memory only through logged reads/writes of
+        single fields.  ERASURE: the object it builds is clone_base, the function all theorems
+        above and the correspondence run are about — for all arguments; likewise for a method
+        call and a chain.  (PARTIAL: that the compiled code makes exactly these accesses is
+        exercised by the race-detector run, not proved.) ---- *)
+Theorem C15_trace_erasure : forall bi fresh base bp ep stt dtag src ext serr site derived,
+  fst (clone_base_tr bi fresh base bp ep stt dtag src ext serr site derived)
+  = clone_base base bp ep stt dtag src ext serr site derived.
+Proof. exact clone_base_tr_erasure. Qed.
+
+Theorem C15_call_trace_erasure : forall xw st v m a, fst (call_tr xw st v m a) = call xw st v m a.
+Proof. exact call_tr_erasure. Qed.
+
+Theorem C15_derive_trace_erasure : forall xw ch st v,
+  fst (derive_tr xw st v ch) = derive xw st v ch.
+Proof. exact derive_tr_erasure. Qed.
+
+(* CloneBase writes only the object it allocates and reads only *base and that object *)
+Theorem C15_trace_local : forall bi fresh base bp ep stt dtag src ext serr site derived x,
+  In x (snd (clone_base_tr bi fresh base bp ep stt dtag src ext serr site derived)) ->
+  local_access bi fresh x.
+Proof. exact clone_base_tr_local. Qed.
+
+(* a method call touches its receiver (reads) and the next free cell (reads and writes) only *)
+Theorem C15_call_accesses_local : forall xw st v m a x,
+  In x (call_accesses xw st v m a) ->
+  exists i, as_gerror v = Some i /\ i < length st /\ local_access i (length st) x.
+Proof. exact call_accesses_local. Qed.
+
+(* no goroutine ever writes a cell (n) or backing array (nh) that existed when it started *)
+Theorem C15_no_shared_writes : forall xw jobs st n nh,
+  n <= length st -> existsb (is_shared_write n nh) (thread_accesses xw st jobs) = false.
 Proof. exact thread_no_shared_write. Qed.
 
-Theorem C15_race_free_model : forall xw st jobs1 jobs2 x y,
+(* two goroutines deriving from a shared store: no two accesses to the same field of the same
+   shared cell of which one is a write ... *)
+Theorem C15_race_free_model : forall xw st nh jobs1 jobs2 x y,
   In x (thread_accesses xw st jobs1) -> In y (thread_accesses xw st jobs2) ->
-  ~ conflict (length st) x y.
+  ~ conflict (length st) nh x y.
 Proof. exact threads_race_free. Qed.
+
+(* ... not even to different fields of the same shared object *)
+Theorem C15_object_race_free : forall xw st jobs1 jobs2 x y,
+  In x (thread_accesses xw st jobs1) -> In y (thread_accesses xw st jobs2) ->
+  ~ object_conflict (length st) x y.
+Proof. exact threads_object_race_free. Qed.
+
+(* FactoryOf is NOT a derivation: it writes isFactory of an EXISTING object.  Done concurrently
+   with anything that reads isFactory of that object (Is, ExtractFactoryReference, Switch) or
+   with another FactoryOf, it is a data race; concurrently with a derivation from that object
+   it writes the object the derivation reads (conflict at object granularity; field by field
+   there is none, because the only read of base.isFactory in CloneBase is dead code when
+   CloneBase is entered through a method).  This is why the property speaks of factories that
+   are built before they are shared. *)
+Theorem C15_factory_of_races : forall i n nh, i < n ->
+  exists x y, In x (factory_of_accesses i) /\ In y (is_head_accesses i) /\ conflict n nh x y.
+Proof. exact factory_of_conflicts_is. Qed.
+
+Theorem C15_factory_of_races_with_itself : forall i n nh, i < n ->
+  exists x y, In x (factory_of_accesses i) /\ In y (factory_of_accesses i) /\ conflict n nh x y.
+Proof. exact factory_of_conflicts_factory_of. Qed.
+
+Theorem C15_factory_of_touches_derivation_source : forall xw st i c m a,
+  nth_error st i = Some c -> (w_guard (base_wiring m) && is_gerr_val (a_err a)) = false ->
+  exists x y, In x (factory_of_accesses i) /\ In y (call_accesses xw st (VG i) m a)
+              /\ object_conflict (length st) x y.
+Proof. exact factory_of_object_conflicts_call. Qed.
+
+Theorem C15_factory_of_no_field_conflict_with_call : forall xw st v m a n nh i x y,
+  n <= length st ->
+  In x (factory_of_accesses i) -> In y (call_accesses xw st v m a) -> ~ conflict n nh x y.
+Proof. exact factory_of_no_field_conflict_with_call. Qed.
+
+(* ---- laterSrcErrors at memory level (GErrSlice.v): slice headers, shared backing arrays,
+        Go's append with ANY growth rule that makes room ([grow cap needed >= needed]).
+        [clip] says whether CloneBase appends to base.laterSrcErrors[:n:n] (true, the current
+        code; the translator tie computes it from the source) or to base.laterSrcErrors. ---- *)
+
+(* simulation: after any tree of derivations every cell's slice holds exactly the g_later list
+   clone_base computes for it *)
+Theorem C15_later_simulation : forall grow clip ms fs hist,
+  (forall c n, n <= grow c n) -> clip = true -> mem_wf ms -> sim ms fs ->
+  sim (fst (mem_run grow clip ms hist)) (fun_run fs hist)
+  /\ mem_wf (fst (mem_run grow clip ms hist)).
+Proof. exact later_sim_clip. Qed.
+
+(* every functional state has a memory representation to start from *)
+Theorem C15_later_initial : forall fs, sim (mem_init fs) fs /\ mem_wf (mem_init fs).
+Proof. exact mem_init_ok. Qed.
+
+(* the slice of an existing error never changes, whatever is derived afterwards *)
+Theorem C15_later_contents_stable : forall grow clip ms hist i c,
+  (forall c n, n <= grow c n) -> clip = true ->
+  mem_wf ms -> nth_error (m_cells ms) i = Some c ->
+  nth_error (m_cells (fst (mem_run grow clip ms hist))) i = Some c
+  /\ contents (m_heap (fst (mem_run grow clip ms hist))) (m_later c)
+     = contents (m_heap ms) (m_later c).
+Proof. exact later_contents_stable_clip. Qed.
+
+(* at any point (after h1) of any history, what follows (h2) never writes a slot of an array
+   reachable from a cell existing at that point: all writes go to arrays allocated later *)
+Theorem C15_later_no_shared_slot_write : forall grow clip ms h1 h2 a k,
+  (forall c n, n <= grow c n) -> clip = true -> mem_wf ms ->
+  In (WrSlot a k) (snd (mem_run grow clip (fst (mem_run grow clip ms h1)) h2)) ->
+  ~ reachable (fst (mem_run grow clip ms h1)) a.
+Proof. exact later_no_shared_slot_write_clip. Qed.
+
+(* hence two goroutines never write, or read and write, the same slot of a shared array *)
+Theorem C15_later_race_free : forall grow clip ms n h1 h2 x y,
+  (forall c n, n <= grow c n) -> clip = true -> mem_wf ms ->
+  In x (snd (mem_run grow clip ms h1)) -> In y (snd (mem_run grow clip ms h2)) ->
+  ~ conflict n (length (m_heap ms)) x y.
+Proof. exact later_threads_race_free_clip. Qed.
+
+(* the histories are those of the store model: a goroutine's memory-level run represents the
+   store [derive] computes, and ALL accesses of two goroutines (fields and slots) are free of
+   conflicts *)
+Theorem C15_later_store_simulation : forall grow clip xw st jobs st',
+  (forall c n, n <= grow c n) -> clip = true ->
+  thread_run xw st jobs = Some st' ->
+  sim (fst (mem_run grow clip (mem_init (map c_g st)) (thread_hist xw st jobs))) (map c_g st').
+Proof. exact thread_later_sim. Qed.
+
+Theorem C15_race_free_full : forall grow clip xw st jobs1 jobs2 x y,
+  (forall c n, n <= grow c n) -> clip = true ->
+  In x (thread_full_accesses grow clip xw st jobs1) ->
+  In y (thread_full_accesses grow clip xw st jobs2) ->
+  ~ conflict (length st) (length st) x y.
+Proof. exact threads_full_race_free. Qed.
+
+Theorem C15_go_growth_makes_room : forall c n, n <= go_grow c n.
+Proof. exact go_grow_ok. Qed.
+
+(* without the clip (seeded change C06-11: append(base.laterSrcErrors, srcError)), Go's growth
+   rule: one factory, four Converts in a row, two Converts from the fourth result — the first
+   sibling's converted error is overwritten by the second's ... *)
+Theorem C15_later_unclipped_refuted :
+  exists (fs : list gerr) (h1 : list hstep) (x : hstep) (i : nat),
+    let ms0 := mem_init fs in
+    mem_wf ms0 /\ sim ms0 fs
+    /\ cell_contents (fst (mem_run go_grow false ms0 h1)) i
+       = option_map g_later (nth_error (fun_run fs h1) i)
+    /\ cell_contents (fst (mem_run go_grow false ms0 h1)) i <> None
+    /\ cell_contents (fst (mem_run go_grow false ms0 (h1 ++ [x]))) i
+       <> cell_contents (fst (mem_run go_grow false ms0 h1)) i
+    /\ cell_contents (fst (mem_run go_grow false ms0 (h1 ++ [x]))) i
+       <> option_map g_later (nth_error (fun_run fs (h1 ++ [x])) i).
+Proof. exact later_unclipped_refuted. Qed.
+
+(* ... and two goroutines deriving from the same error both write the same slot *)
+Theorem C15_later_unclipped_races :
+  exists (ms : mem) (h1 h2 : list hstep) (x y : access),
+    mem_wf ms
+    /\ In x (snd (mem_run go_grow false ms h1)) /\ In y (snd (mem_run go_grow false ms h2))
+    /\ conflict (length (m_cells ms)) (length (m_heap ms)) x y.
+Proof. exact later_unclipped_races. Qed.
 
 (* ---- non-vacuity: a factory with preset message and no source; Msg with padded Unicode
         white space, a blank Msg, DTag twice, Src after a derived source, Stack, Base ---- *)
@@ -185,9 +332,37 @@ Example C15_example_hypotheses :
   /\ stack_has_source (view_of (new_gerr (s_of "ErrX") (s_of "base") [] true)) = true.
 Proof. vm_compute. repeat split. Qed.
 
+(* the derived trace of one DTag call on the factory (cell 0), clone in cell 1 *)
 Example C15_example_accesses :
-  thread_accesses base_wiring ex_store [(VG 0, firstn 2 ex_chain)] = [Rd 0; Wr 1; Rd 1; Wr 2].
+  thread_accesses base_wiring ex_store [(VG 0, [(MDTag, ex_args [] (s_of "a") [] 3%N)])]
+  = [Rd 0 FFref;
+     Rd 0 FName; Rd 0 FMsg; Rd 0 FSrc; Rd 0 FDTag; Rd 0 FStack; Rd 0 FSerr;
+     Wr 1 FName; Wr 1 FMsg; Wr 1 FSrc; Wr 1 FDTag; Wr 1 FStack; Wr 1 FFref; Wr 1 FSerr;
+     Wr 1 FLater; Wr 1 FIsFac;
+     Wr 1 FName; Wr 1 FMsg; Wr 1 FSrc; Wr 1 FDTag; Wr 1 FFref; Wr 1 FStack; Wr 1 FSerr;
+     Rd 1 FDTag; Wr 1 FDTag;
+     Rd 1 FFref;
+     Rd 0 FLater; Wr 1 FLater; Rd 1 FSerr;
+     Rd 1 FStack; Rd 1 FSrc; Wr 1 FStack; Rd 1 FSrc; Rd 1 FStack; Wr 1 FSrc; Wr 1 FStack].
 Proof. vm_compute. reflexivity. Qed.
+
+(* non-vacuity of the laterSrcErrors theorems (clipped code, Go's growth): three appended
+   errors, then a branch; the memory contents are the functional model's lists *)
+Example C15_example_later :
+  let ms := fst (mem_run go_grow true (mem_init [ex_factory]) ex_hist) in
+  map (cell_contents ms) [4; 5; 6]
+  = [Some [ferr 2; ferr 3; ferr 4]; Some [ferr 2; ferr 3; ferr 4; ferr 5];
+     Some [ferr 2; ferr 3; ferr 4; ferr 6]]
+  /\ map (fun g => Some (g_later g)) (skipn 4 (fun_run [ex_factory] ex_hist))
+     = map (cell_contents ms) [4; 5; 6].
+Proof. exact later_clipped_example. Qed.
+
+Example C15_example_later_threads :
+  let ms := fst (mem_run go_grow true (mem_init [ex_factory]) ex_prefix) in
+  snd (mem_run go_grow true ms [conv 4 (ferr 5)])
+  = [RdSlot 3 0; RdSlot 3 1; RdSlot 3 2; WrSlot 4 0; WrSlot 4 1; WrSlot 4 2; WrSlot 4 3]
+  /\ length (m_heap ms) = 4.
+Proof. exact later_clipped_threads_example. Qed.
 
 Print Assumptions C15_only_allocates.
 Print Assumptions C15_factory_unchanged.
@@ -207,7 +382,27 @@ Print Assumptions C15_stack_taking_methods.
 Print Assumptions C15_name.
 Print Assumptions C15_all.
 Print Assumptions C15_call_defined.
+Print Assumptions C15_trace_erasure.
+Print Assumptions C15_call_trace_erasure.
+Print Assumptions C15_derive_trace_erasure.
+Print Assumptions C15_trace_local.
+Print Assumptions C15_call_accesses_local.
 Print Assumptions C15_no_shared_writes.
 Print Assumptions C15_race_free_model.
+Print Assumptions C15_object_race_free.
+Print Assumptions C15_factory_of_races.
+Print Assumptions C15_factory_of_races_with_itself.
+Print Assumptions C15_factory_of_touches_derivation_source.
+Print Assumptions C15_factory_of_no_field_conflict_with_call.
+Print Assumptions C15_later_simulation.
+Print Assumptions C15_later_initial.
+Print Assumptions C15_later_contents_stable.
+Print Assumptions C15_later_no_shared_slot_write.
+Print Assumptions C15_later_race_free.
+Print Assumptions C15_later_store_simulation.
+Print Assumptions C15_race_free_full.
+Print Assumptions C15_go_growth_makes_room.
+Print Assumptions C15_later_unclipped_refuted.
+Print Assumptions C15_later_unclipped_races.
 Print Assumptions C15_derived_source_nonempty.
 Print Assumptions C15_derived_ok_from_frames.
